@@ -4,6 +4,7 @@ import (
 	"context"
 	"errors"
 	"fmt"
+	"io"
 	"net"
 	"net/netip"
 	"os"
@@ -312,6 +313,118 @@ func runC20(c *Ctx) error {
 		c.Count("instance-cycle")
 		c.NonTrivial(fmt.Sprintf("instance/short=%v/universe=%v/secret=%v/linked=%v", shortForm, universe != "", secret != "", linked))
 		c.Sample(map[string]any{"cfg": label, "linked": linked, "goroutines_running": running, "goroutines_after": after, "baseline": base})
+	}
+
+	// ---------- a router is stopped while its only link is still being set up ----------
+	// B reaches A through a slow path (a forwarder of the harness that holds the connection back):
+	// the handshake is still under way when B is stopped and completes while B shuts down.  When
+	// B's stop has returned, B holds no link and runs no link worker, A (still running) loses its
+	// link to B, and nothing accumulates.
+	for rep, n := 0, c.Pick(2, 5); rep < n; rep++ {
+		portA, portF := freePort(), freePort()
+		mk := func(id *m.Address, port int, connect []string) config.Store {
+			return config.Store{Router: config.Router{Address: id.Store(), Listen: []string{fmt.Sprintf("tcp://127.0.0.1:%d", port)}, Connect: connect}, System: config.System{DisableTun: true}}
+		}
+		stA := mk(ids[0], portA, nil)
+		stB := mk(ids[1], freePort(), []string{fmt.Sprintf("tcp://127.0.0.1:%d", portF)})
+		cfgA, errA := stA.Parse()
+		cfgB, errB := stB.Parse()
+		if errA != nil || errB != nil {
+			c.Violate(fmt.Sprintf("a valid relay-only configuration does not parse: %v %v", errA, errB), "config-parse", map[string]any{"cfg": "stop-during-link-setup"})
+			break
+		}
+		// the forwarder: accepts B's connection, waits for the release, then relays to A
+		fl, err := net.Listen("tcp", fmt.Sprintf("127.0.0.1:%d", portF))
+		if err != nil {
+			c.Note("stop-during-link-setup skipped: %v", err)
+			break
+		}
+		release := make(chan struct{})
+		accepted := make(chan struct{}, 8)
+		var fconns sync.Map
+		go func() {
+			for {
+				cb, err := fl.Accept()
+				if err != nil {
+					return
+				}
+				fconns.Store(cb, true)
+				accepted <- struct{}{}
+				go func() {
+					<-release
+					ca, err := net.Dial("tcp", fmt.Sprintf("127.0.0.1:%d", portA))
+					if err != nil {
+						_ = cb.Close()
+						return
+					}
+					fconns.Store(ca, true)
+					go func() { _, _ = io.Copy(ca, cb); _ = ca.Close() }()
+					_, _ = io.Copy(cb, ca)
+					_ = cb.Close()
+				}()
+			}
+		}()
+		A, errA := mycoria.New("verif", cfgA)
+		B, errB := mycoria.New("verif", cfgB)
+		if errA != nil || errB != nil {
+			c.Violate(fmt.Sprintf("constructing a relay-only router failed: %v %v", errA, errB), "construct", map[string]any{"cfg": "stop-during-link-setup"})
+			_ = fl.Close()
+			break
+		}
+		if err := A.Start(); err != nil {
+			c.Violate("starting a relay-only router failed: "+err.Error(), "start", map[string]any{"cfg": "stop-during-link-setup"})
+			_ = fl.Close()
+			break
+		}
+		if err := B.Start(); err != nil {
+			c.Violate("starting a relay-only router failed: "+err.Error(), "start", map[string]any{"cfg": "stop-during-link-setup"})
+			A.Stop()
+			_ = fl.Close()
+			break
+		}
+		dialled := false
+		select {
+		case <-accepted:
+			dialled = true
+		case <-time.After(8 * time.Second):
+		}
+		stopped := make(chan bool, 1)
+		go func() { stopped <- B.Stop() }()
+		time.Sleep(time.Duration(50+c.Rng.IntN(250)) * time.Millisecond) // B is shutting down: its peering manager has closed the links it knew
+		close(release)
+		okStop, returned := false, false
+		select {
+		case okStop = <-stopped:
+			returned = true
+		case <-time.After(70 * time.Second):
+		}
+		// the handshake may complete a moment after the stop returned
+		var linksB int
+		var linkAtA bool
+		for t0 := time.Now(); time.Since(t0) < 4*time.Second; time.Sleep(100 * time.Millisecond) {
+			linksB = len(B.Peering().GetLinks())
+			linkAtA = A.Peering().GetLink(ids[1].IP) != nil
+			if time.Since(t0) > 1500*time.Millisecond && linksB == 0 && !linkAtA {
+				break
+			}
+		}
+		c.Eval()
+		c.Count("instance-cycle:stop-during-link-setup")
+		rep2 := map[string]any{"cfg": "stop-during-link-setup", "dialled_before_stop": dialled, "stop_returned": returned, "stop_ok": okStop, "links_at_stopped_router": linksB, "running_router_still_linked": linkAtA}
+		if dialled {
+			c.NonTrivial("instance/stop-during-link-setup")
+			if !returned || !okStop {
+				c.Violate("stopping a relay-only router while its link was being set up did not return success", "stop-failed", rep2)
+			} else if linksB > 0 || linkAtA {
+				c.Violate(fmt.Sprintf("a router stopped while its link was being set up still holds %d link(s) afterwards (the running neighbour still has its link to it: %v)", linksB, linkAtA), "link-survives-stop", rep2)
+			}
+		}
+		A.Stop()
+		_ = fl.Close()
+		fconns.Range(func(k, _ any) bool { _ = k.(net.Conn).Close(); return true })
+		if after := goroutines(); after > base+2 {
+			c.Violate(fmt.Sprintf("goroutines accumulate over start/stop cycles: %d before the first cycle, %d after a stop during link setup", base, after), "goroutine-leak", rep2)
+		}
 	}
 	return nil
 }
